@@ -166,12 +166,10 @@ func VerifHarness_C04_proofs() {
 	}
 	actualRoot, _, _ := c04Tree(actual, 0)
 	bad := actualRoot != header.MerkleRoot
-	if corruption != 0 && !bad {
-		// a mutated body that still hashes to the header's root (duplicated tail,
-		// CVE-2012-2459 shape) is not "bad-merkle" by the statement: outside the claim
-		verifrt.Reach("C04.same-root-mutation.skipped")
-		return
-	}
+	// a mutated body that still hashes to the header's root (duplicated tail, CVE-2012-2459 shape)
+	// is not "bad-merkle" by the statement; the first sentence still binds: if the node processes
+	// it, every notification carries a proof that verifies at an index where that txid really is
+	sameRoot := corruption != 0 && !bad
 	heightBefore := node.blocks.LastHeight()
 
 	var berr error
@@ -193,6 +191,39 @@ func VerifHarness_C04_proofs() {
 		}
 		verifrt.Reach("C04.bad-merkle.refused")
 		verifrt.Reach("C04.proofs.done")
+		return
+	}
+	if sameRoot {
+		verifrt.Reach("C04.same-root-mutation.checked")
+		if berr != nil {
+			// refusing the mutated body is fine, if it is refused cleanly
+			verifrt.Sig("same-root", "refused", "height")
+			verifrt.Assert(node.blocks.LastHeight() == heightBefore, "C04.same-root-mutation.refused-body-not-added")
+			for _, e := range rec.events[mark:] {
+				verifrt.Sig("same-root", "refused", "delivery")
+				verifrt.Assert(e.kind != "tx" && e.kind != "update", "C04.same-root-mutation.refused-body-not-delivered")
+			}
+			return
+		}
+		stored, herr := node.blocks.Header(ctx, heightBefore+1)
+		verifrt.Assert(herr == nil && stored != nil, "C04.block.header-stored")
+		for _, e := range rec.events[mark:] {
+			if e.kind != "tx" && e.kind != "update" {
+				continue
+			}
+			verifrt.Sig("same-root", "proof-present")
+			verifrt.Assert(e.state.MerkleProof != nil, "C04.same-root-mutation.notification-carries-a-proof")
+			if e.state.MerkleProof == nil {
+				continue
+			}
+			p := e.state.MerkleProof
+			at := int(p.Index)
+			verifrt.Sig("same-root", "index")
+			verifrt.Assert(at >= 0 && at < len(actual) && actual[at] == e.txid, "C04.same-root-mutation.index-is-a-position-of-that-tx")
+			root, _ := c04Verify(p, e.txid)
+			verifrt.Sig("same-root", "verifier")
+			verifrt.Assert(p.IsValid(e.txid) == nil && root == stored.MerkleRoot, "C04.same-root-mutation.proof-verifies")
+		}
 		return
 	}
 	verifrt.Sig("ProcessBlock", "err")
